@@ -122,6 +122,7 @@ func (p *ProjectionError) Error() string { return "projection: " + p.Msg }
 func WriteLines(w io.Writer, lines []Line) error {
 	enc := json.NewEncoder(w)
 	for _, l := range lines {
+		l.Norm()
 		if err := enc.Encode(l); err != nil {
 			return err
 		}
